@@ -77,6 +77,10 @@ FAM_THOROUGH = FAM_QUICK + [
     ("ord", "ordinary", {"A": "m", "B": "s"}, {"A": "cm", "B": "ms"}),
     ("ord-compound", "ordinary", {"A": "kg*m/s**2", "B": "1/ms"}, {"A": "g*cm/s**2", "B": "1/s"}),
 ]
+# 'mixed' families: base run = operands of one slot written in two different units (first operand Lb, further ones La with
+# numbers x 2**12), variant run = all of them in Lb.  A refusal of the mixed call is accepted (and counted).
+FAM_MIXED_QUICK = [("dy-mixed", "dyadic", {"A": "Lb", "B": "Tb"}, {"A": ("La", 4096), "B": ("Ta", 4096)})]
+FAM_MIXED_THOROUGH = FAM_MIXED_QUICK + [("dy-mixed-up", "dyadic", {"A": "La", "B": "Ta"}, {"A": ("Lb", 1.0 / 4096), "B": ("Tb", 1.0 / 4096)})]
 LAYOUT_DRAW = ("C", "C", "C", "F", "strided", "reversed", "T")
 
 
@@ -357,6 +361,29 @@ def make_wrap(unyt, reg, assign, factors, zero_d="quantity"):
     return wrap
 
 
+def make_mixed_wrap(unyt, reg, assign, alt, zero_d="quantity"):
+    """base run of the 'mixed' families: the first operand of every slot keeps the slot's unit, every further operand of that
+    slot (fill values, bounds, second arrays ...; not out= buffers, which are relabelled by the call anyway) is written in
+    the slot's alternative unit with its numbers rescaled exactly.  The variant run writes everything in the slot's unit."""
+    plain = make_wrap(unyt, reg, assign, {}, zero_d)
+    seen = {}
+
+    def wrap(data, dim, q):
+        if dim not in alt or q.role == "out":
+            return plain(data, dim, q)
+        n = seen.get(dim, 0)
+        seen[dim] = n + 1
+        if n == 0:
+            return plain(data, dim, q)
+        unit_alt, f = alt[dim]
+        return make_wrap(unyt, reg, {dim: unit_alt}, {dim: f}, zero_d)(data, dim, q)
+
+    def reset():
+        seen.clear()
+    wrap.reset = reset
+    return wrap
+
+
 def family_factors(kind, base, var):
     out = {}
     for slot in base:
@@ -400,6 +427,8 @@ def dt_class(dt):
 
 def _run(t, call, wrap, layout):
     try:
+        if hasattr(wrap, "reset"):
+            wrap.reset()
         a, k, leaves = call.realize(wrap, layout)
     except Unusable as e:
         return ("unusable", str(e), None, None)
@@ -428,6 +457,8 @@ def worker(batch, rec):
         fac = family_factors(kind, base, var)
         zd = "array" if name.endswith("0d-array") else "quantity"
         wraps[name] = (kind, make_wrap(unyt, r, base, {}, zd), make_wrap(unyt, r, var, fac, zd), base)
+    for name, kind, base, alt in (FAM_MIXED_QUICK if quick else FAM_MIXED_THOROUGH):
+        wraps[name] = (kind, make_mixed_wrap(unyt, reg, base, alt), make_wrap(unyt, reg, base, {}), base)
     bf = nc.by_function()
     for fname in payload["funcs"]:
         fails = {}     # (failure kind, where) -> [entry]
@@ -477,8 +508,21 @@ def run_template(t, rec, seed, dtypes, draws, wraps, fails):
 
 def judge_case(t, call, layout, shape, dt, fam, kind, w1, w2, base, slots, rec, fails, skip1, skip2):
     tags = t.tags
+    mixed = fam.startswith("dy-mixed")
+    if mixed and sum(1 for _, q in call.leaves() if q.dim in ("A", "B") and not q.bare and q.role != "out") < 2:
+        return          # nothing to mix: one unit-carrying operand only
     o1 = _run(t, call, w1, layout)
     o2 = _run(t, call, w2, layout)
+    if mixed and o1[0] == "exc" and o2[0] == "ok":
+        # operands of one dimension written in two different units: a refusal is not a covariance failure
+        rec.count("mixed-units-refused")
+        rec.note(f"mixed-units-refused:{t.func_name}")
+        return
+    if mixed and t.func_name in ("numpy.array_equal", "numpy.array_equiv"):
+        rec.count("mixed-units-not-judged:equal-units-required-by-definition")     # C19: these also require equal units
+        return
+    if mixed:
+        rec.count("mixed-units-pairs-run")
     if o1[0] == "unusable" or o2[0] == "unusable":
         rec.count("discarded:rescaling-not-exact-in-this-dtype")
         return
@@ -487,7 +531,7 @@ def judge_case(t, call, layout, shape, dt, fam, kind, w1, w2, base, slots, rec, 
         if "unsupported" in tags:          # the mechanism is that the declared-unsupported function ran at all, not the leaf
             where = where.split("[")[0]
         fails.setdefault((fkind, where), []).append({
-            "base": t.form == "base", "names": form_names(t, call), "dt": dt_class(dt), "ukind": kind,
+            "base": t.form == "base", "names": form_names(t, call), "dt": dt_class(dt), "ukind": "dyadic-mixed" if mixed else kind,
             "desc": f"{t.tid} [{shape},{dt},{fam}] {where}: {detail}",
             "case": {"template": t.tid, "shape": shape, "dtype": dt, "family": fam, "args": call.args, "kwargs": call.kwargs,
                      "where": where, "detail": detail}})
@@ -626,6 +670,12 @@ def judge_case(t, call, layout, shape, dt, fam, kind, w1, w2, base, slots, rec, 
                 rec.note("numpy-itself-not-bit-exact:" + t.func_name)
                 rec.count(f"rule1-{sub}-leaves-compared")
                 continue
+        if mixed and d[0] == "not-bit-exact":
+            # unyt has to convert the operand written in the other unit: the result may come back in another float width
+            # (float32 data, float64 conversion) - a rounding-sized difference is C17's subject, not a covariance failure
+            rec.count("mixed-units-held-within-rounding")
+            rec.count(f"rule1-{sub}-leaves-compared")
+            continue
         if np.dtype(dt).kind in "iu" and _integer_artifact(t, call, layout, w1, w2):
             rec.count("discarded:integer-rounding-or-wrap-around-in-numpy")
             continue
@@ -738,7 +788,7 @@ def emit(fname, fails, rec):
         for fq, es in sorted(groups.items()):
             dcs = {e["dt"] for e in es}
             dq = "" if "float" in dcs else (":" + sorted(dcs)[0] if len(dcs) == 1 else ":non-float")
-            uq = "" if any(e["ukind"] == "dyadic" for e in es) else ":ordinary-units"
+            uq = "" if any(e["ukind"] == "dyadic" for e in es) else (":mixed-units" if any(e["ukind"] == "dyadic-mixed" for e in es) else ":ordinary-units")
             key = f"C07:{fname}{fq}:{fkind}:{where}{dq}{uq}"
             for e in sorted(es, key=lambda e: (not e["base"], e["dt"] != "float", ",f8," not in e["desc"], e["desc"])):
                 rec.violation(key, e["desc"], e["case"])
@@ -764,6 +814,7 @@ def extra(tier, seed, results):
         "pairs of runs, array functions": counters.get("pairs-run:function", 0),
         "pairs of runs, ndarray methods": counters.get("pairs-run:method", 0),
         "pairs of runs, operators/protocols": counters.get("pairs-run:op", 0),
+        "pairs of runs with one slot written in two units (mixed families)": counters.get("mixed-units-pairs-run", 0),
     }
     if tier != "quick":
         deciding["rule 1, unit-carrying leaves compared within tolerance (ordinary units)"] = counters.get("rule1-unit-leaves:ordinary", 0)
